@@ -90,6 +90,8 @@ V_Cands(r, t, act) ==
      UNION { V_Range(j.tasks[i].places) : i \in { i \in 1..Len(j.tasks) : j.tasks[i].kind = act.type } }
   ELSE IF act.type = "reload" THEN
      { [loc |-> x.loc, dur |-> x.dur, tag |-> x.tag, tws |-> x.tws] : x \in V_Range(V_Shift(r, t).reloads) }
+  ELSE IF act.type = "recharge" THEN
+     { [loc |-> x.loc, dur |-> x.dur, tag |-> x.tag, tws |-> x.tws] : x \in V_Range(V_Shift(r, t).recharge.stations) }
   ELSE IF act.type = "break" THEN
      { [loc |-> IF b.loc = 0 THEN act.loc ELSE b.loc, dur |-> b.dur, tag |-> b.tag,
         tws |-> IF b.isOffset THEN << <<t.flat[1].end + b.tws[1][1], t.flat[1].end + b.tws[1][2]>> >> ELSE b.tws]
@@ -230,7 +232,10 @@ ConditionalDistinct(r) == \A k \in 1..Len(r.tours) :
       /\ V_Injective(Len(rls), Len(sh.reloads),
                      LAMBDA a, b : sh.reloads[b].loc = rls[a].loc /\ sh.reloads[b].dur = rls[a].end - rls[a].start
                                    /\ sh.reloads[b].tag = rls[a].tag)
-      /\ Len(SelectSeq(t.flat, LAMBDA a : a.type = "recharge")) = 0 \* stratum without recharge stations
+      /\ LET rcs == SelectSeq(t.flat, LAMBDA a : a.type = "recharge") st == sh.recharge.stations IN
+         \* "each [station] can be visited only once" (model.rs VehicleRecharges)
+         V_Injective(Len(rcs), Len(st),
+                     LAMBDA a, b : st[b].loc = rcs[a].loc /\ st[b].dur = rcs[a].end - rcs[a].start /\ st[b].tag = rcs[a].tag)
 
 (******************* C01: skills, limits, groups, compat, order ***********)
 Skills(r) == \A k \in 1..Len(r.tours) : LET t == r.tours[k] vs == V_Range(V_Veh(r, t).skills) IN
@@ -249,6 +254,18 @@ LimitDuration(r) == \A k \in 1..Len(r.tours) : LET t == r.tours[k] v == V_Veh(r,
   v.maxDur = -1 \/ V_TourDuration(t) <= v.maxDur
 LimitTourSize(r) == \A k \in 1..Len(r.tours) : LET t == r.tours[k] v == V_Veh(r, t) IN
   v.tourSize = -1 \/ Len(V_Inner(t)) <= v.tourSize
+\* C01 "tour distance limits", recharge stations (vehicles.md: "max distance limit before recharge should happen"): the way
+\* driven from the start of the tour or from a recharge stop up to the next recharge stop or the end of the tour
+V_IsRechargeStop(s) == \E i \in 1..Len(s.acts) : s.acts[i].type = "recharge"
+V_RechargeSpans(r, t) ==
+  LET legs == V_LegDists(r, t)
+      walk == FoldLeft(LAMBDA acc, k :
+                 LET d == acc.cur + legs[k] IN
+                 [cur |-> IF V_IsRechargeStop(t.stops[k + 1]) THEN 0 ELSE d, spans |-> Append(acc.spans, d)],
+               [cur |-> 0, spans |-> <<>>], V_Idx(legs))
+  IN walk.spans
+RechargeDistance(r) == \A k \in 1..Len(r.tours) : LET t == r.tours[k] sh == V_Shift(r, t) IN
+  sh.recharge.max = -1 \/ \A d \in V_Range(V_RechargeSpans(r, t)) : d <= sh.recharge.max
 Limits(r) == LimitDistance(r) /\ LimitDuration(r) /\ LimitTourSize(r)
 
 V_JobsOfTour(r, t) == { V_JobActs(t)[p].jix : p \in 1..Len(V_JobActs(t)) }
@@ -333,7 +350,7 @@ OverallStat(r) ==
 
 (*************************** bundles **************************************)
 Feasible(r) == /\ PlacesAndWindows(r) /\ Shift(r) /\ Capacity(r) /\ Skills(r) /\ Limits(r) /\ Groups(r)
-               /\ Compat(r) /\ OrderHard(r) /\ Reach(r) /\ RelationVehicle(r) /\ RelationOrder(r)
+               /\ Compat(r) /\ OrderHard(r) /\ Reach(r) /\ RelationVehicle(r) /\ RelationOrder(r) /\ RechargeDistance(r)
 Partition(r) == PartitionJobs(r) /\ NoForeignIds(r) /\ ToursWellFormed(r) /\ ConditionalDistinct(r)
 Stats(r) == /\ ScheduleArrivals(r) /\ ScheduleDepartures(r) /\ StopLocations(r) /\ ReportedLoad(r)
             /\ StopDistances(r) /\ TourStat(r) /\ TourCost(r) /\ OverallStat(r) /\ PlaceTags(r)
